@@ -3,6 +3,8 @@
 package verifsys
 
 import (
+	"sort"
+	"bytes"
 	"bufio"
 	"encoding/json"
 	"fmt"
@@ -579,6 +581,8 @@ func TestVerifC14(t *testing.T) {
 
 	// --- Part 6: no space left on the device holding the data directory. ---
 	c14DiskFull(rep, up)
+	c14CrashLeftovers(rep, up, ls)
+	c14ShutdownDuringDownload(rep, up, ls, rng)
 
 	// --- Part 2: SIGKILL campaign (no strace). ----------------------------
 	kills := verifkit.Pick(5, 40)
@@ -1138,4 +1142,260 @@ func c14DiskFull(rep *verifkit.Report, up *sysUpstream) {
 	}
 	_ = os.Remove(filepath.Join(data, "filler.bin"))
 	in.Stop(20 * time.Second)
+}
+
+// c14CrashLeftovers starts the program on what a crash in the middle of a save
+// leaves behind: the complete old destination plus a newer pending file (named
+// as the program names them) that is empty, half written or garbage.  The
+// program must come up with the old content of every destination.
+func c14CrashLeftovers(rep *verifkit.Report, up *sysUpstream, ls *sysListServer) {
+	opts := sysConfOpts{UpstreamPort: up.Port, ExtraTop: c14DHCPConf}
+	in, err := sysStart("", opts)
+	if err != nil {
+		rep.Inconcl("crash-leftover phase start: " + err.Error())
+
+		return
+	}
+	defer func() {
+		in.Kill()
+		_ = os.RemoveAll(in.Dir)
+	}()
+	ok := func(st int, e error) bool { return e == nil && st == 200 }
+	for i := 0; i < 3; i++ {
+		l := map[string]any{"mac": fmt.Sprintf("aa:bb:cd:00:00:%02x", i), "ip": fmt.Sprintf("10.77.9.%d", 10+i), "hostname": fmt.Sprintf("leftover%d", i)}
+		if st, b, aerr := in.API("POST", "/control/dhcp/add_static_lease", l); !ok(st, aerr) {
+			rep.Inconcl(fmt.Sprintf("crash-leftover phase add_static_lease: %d %v %s", st, aerr, b))
+
+			return
+		}
+	}
+	ls.Set("/leftover.txt", c14FilterContent(9100, 200))
+	if st, b, aerr := in.API("POST", "/control/filtering/add_url", map[string]any{"name": "leftover", "url": ls.URL("/leftover.txt"), "whitelist": false}); !ok(st, aerr) {
+		rep.Inconcl(fmt.Sprintf("crash-leftover phase add_url: %d %v %s", st, aerr, b))
+
+		return
+	}
+	if st, _, aerr := in.API("POST", "/control/filtering/set_rules", map[string]any{"rules": []string{"||kept.leftover.c14.test^"}}); !ok(st, aerr) {
+		rep.Inconcl("crash-leftover phase set_rules failed")
+
+		return
+	}
+	leasesOf := func(x *sysInst) (out []string) {
+		_, b, _ := x.API("GET", "/control/dhcp/status", nil)
+		var v struct {
+			Static []struct {
+				MAC, IP, Hostname string
+			} `json:"static_leases"`
+		}
+		_ = json.Unmarshal(b, &v)
+		for _, l := range v.Static {
+			out = append(out, strings.ToLower(l.MAC)+"|"+l.IP+"|"+l.Hostname)
+		}
+		sort.Strings(out)
+
+		return out
+	}
+	rulesOf := func(x *sysInst) string {
+		_, b, _ := x.API("GET", "/control/filtering/status", nil)
+		var v struct {
+			Filters []struct {
+				Name  string `json:"name"`
+				Count int    `json:"rules_count"`
+			} `json:"filters"`
+			UserRules []string `json:"user_rules"`
+		}
+		_ = json.Unmarshal(b, &v)
+
+		return fmt.Sprintf("%+v", v)
+	}
+	wantLeases, wantRules := leasesOf(in), rulesOf(in)
+	if len(wantLeases) != 3 {
+		rep.Inconcl(fmt.Sprintf("crash-leftover phase: %d static leases listed before the restart", len(wantLeases)))
+
+		return
+	}
+	variants := []string{"empty", "first-half-of-a-newer-version", "garbage", "one-byte"}
+	for vi, variant := range variants {
+		if !in.Stop(20 * time.Second) {
+			rep.Inconcl("crash-leftover phase: the server did not stop")
+
+			return
+		}
+		dests := []string{filepath.Join(in.Dir, "AdGuardHome.yaml"), filepath.Join(in.Dir, "data", "leases.json")}
+		fs, _ := filepath.Glob(filepath.Join(in.Dir, "data", "filters", "*.txt"))
+		dests = append(dests, fs...)
+		before := map[string][]byte{}
+		var made []string
+		for _, d := range dests {
+			cur, rerr := os.ReadFile(d)
+			if rerr != nil {
+				continue
+			}
+			before[d] = cur
+			var content []byte
+			switch variant {
+			case "first-half-of-a-newer-version":
+				newer := bytes.ReplaceAll(cur, []byte("leftover"), []byte("LEFTOVER-NEWER"))
+				content = newer[:len(newer)/2]
+			case "garbage":
+				content = bytes.Repeat([]byte{0xff, 0x00, '{', '['}, 300)
+			case "one-byte":
+				content = []byte("{")
+			}
+			pend := filepath.Join(filepath.Dir(d), fmt.Sprintf(".%s%d", filepath.Base(d), 100000000+vi*7919+len(made)))
+			if werr := os.WriteFile(pend, content, 0o600); werr == nil {
+				newer := time.Now().Add(2 * time.Second)
+				_ = os.Chtimes(pend, newer, newer)
+				made = append(made, pend)
+			}
+		}
+		in2, rerr := sysRestart(in, opts)
+		rep.Eval(true, "crash-leftover|"+variant)
+		rep.Class("restarts_on_crash_leftovers:" + variant)
+		if rerr != nil {
+			rep.Violate("crash-leftover:restart-failed:"+variant, "the server did not start on a complete set of files plus newer pending files that a crash in the middle of a save leaves behind: "+rerr.Error(),
+				map[string]any{"pending_files": made})
+
+			return
+		}
+		in = in2
+		for w := 0; w < 200; w++ {
+			st1, _, e1 := in.API("GET", "/control/filtering/status", nil)
+			st2, _, e2 := in.API("GET", "/control/dhcp/status", nil)
+			if e1 == nil && st1 == 200 && e2 == nil && st2 == 200 {
+				break
+			}
+			time.Sleep(25 * time.Millisecond)
+		}
+		gotLeases, gotRules := leasesOf(in), rulesOf(in)
+		if strings.Join(gotLeases, ",") != strings.Join(wantLeases, ",") {
+			rep.Violate("crash-leftover:leases-lost:"+variant, fmt.Sprintf("after a restart on the complete lease database plus a newer pending file (%s) the static leases are %v, before: %v", variant, gotLeases, wantLeases),
+				map[string]any{"pending_files": made, "log_tail": sysTail(in.Log(), 1500)})
+
+			return
+		}
+		if gotRules != wantRules {
+			rep.Violate("crash-leftover:filtering-state-changed:"+variant, fmt.Sprintf("after a restart on complete files plus newer pending files (%s) the filtering status is %s, before: %s", variant, gotRules, wantRules),
+				map[string]any{"pending_files": made})
+
+			return
+		}
+		c14ValidateDir(rep, in.Dir, "after-restart-on-crash-leftovers")
+		if b, e := os.ReadFile(filepath.Join(in.Dir, "data", "leases.json")); e != nil || !bytes.Contains(b, []byte("leftover0")) || bytes.Contains(b, []byte("LEFTOVER-NEWER")) {
+			rep.Violate("crash-leftover:lease-file-replaced:"+variant, "after the restart the lease database on disk is not the complete old one", map[string]any{"pending_files": made, "size": len(b)})
+
+			return
+		}
+		for _, m := range made {
+			_ = os.Remove(m)
+		}
+	}
+}
+
+// c14ShutdownDuringDownload tells the program to stop (SIGTERM) while the body
+// of a changed list is trickling in.  Whatever the shutdown does with the
+// transfer, the stored list must be the complete old version or the complete
+// new one, now and after the next start.
+func c14ShutdownDuringDownload(rep *verifkit.Report, up *sysUpstream, ls *sysListServer, rng *rand.Rand) {
+	opts := sysConfOpts{UpstreamPort: up.Port}
+	in, err := sysStart("", opts)
+	if err != nil {
+		rep.Inconcl("shutdown-during-download phase start: " + err.Error())
+
+		return
+	}
+	defer func() {
+		in.Kill()
+		_ = os.RemoveAll(in.Dir)
+	}()
+	const path = "/shutdown.txt"
+	ls.Set(path, c14FilterContent(9200, 300))
+	if st, b, aerr := in.API("POST", "/control/filtering/add_url", map[string]any{"name": "sd", "url": ls.URL(path), "whitelist": false}); aerr != nil || st != 200 {
+		rep.Inconcl(fmt.Sprintf("shutdown-during-download phase add_url: %d %v %s", st, aerr, b))
+
+		return
+	}
+	rounds := verifkit.Pick(4, 16)
+	for r := 0; r < rounds; r++ {
+		// A transfer of 2-3 s in 50 chunks.
+		ls.SetSlow(path, c14FilterContent(9201+r, 20000+rng.Intn(20000)), 50, time.Duration(40+rng.Intn(20))*time.Millisecond)
+		hits := ls.HitsFor(path)
+		resCh := make(chan string, 1)
+		how := "forced-refresh"
+		if r%2 == 0 {
+			// The program's own periodic refresh (a few seconds after the
+			// start, for lists whose file is older than the interval): stop,
+			// age the file, start again.
+			how = "background-refresh"
+			if !in.Stop(25 * time.Second) {
+				rep.Inconcl("shutdown-during-download phase: the server did not stop")
+
+				return
+			}
+			fs, _ := filepath.Glob(filepath.Join(in.Dir, "data", "filters", "*.txt"))
+			old := time.Now().Add(-72 * time.Hour)
+			for _, f := range fs {
+				_ = os.Chtimes(f, old, old)
+			}
+			hits = ls.HitsFor(path)
+			in2, rerr := sysRestart(in, opts)
+			if rerr != nil {
+				rep.Inconcl("shutdown-during-download phase: restart: " + rerr.Error())
+
+				return
+			}
+			in = in2
+			resCh <- "(background refresh)"
+		} else {
+			go func(x *sysInst) {
+				st, b, e := x.APITimeout("POST", "/control/filtering/refresh", map[string]any{"whitelist": false}, 20*time.Second)
+				resCh <- fmt.Sprintf("%d %v %s", st, e, sysTail(string(b), 200))
+			}(in)
+		}
+		started := false
+		for w := 0; w < 2000 && !started; w++ {
+			time.Sleep(10 * time.Millisecond)
+			started = ls.HitsFor(path) > hits
+		}
+		if !started {
+			res := "(no answer yet)"
+			select {
+			case res = <-resCh:
+			case <-time.After(3 * time.Second):
+			}
+			rep.Inconcl(fmt.Sprintf("shutdown-during-download phase: the transfer did not start in round %d (%s); refresh answered: %s", r, how, res))
+
+			return
+		}
+		rep.Class("shutdowns_during_a_list_download:" + how)
+		time.Sleep(time.Duration(200+rng.Intn(1200)) * time.Millisecond)
+		clean := in.Stop(25 * time.Second)
+		rep.Eval(true, fmt.Sprintf("shutdown-during-download|%d", r))
+		rep.Class("shutdowns_during_a_list_download")
+		if !clean {
+			rep.Class("shutdowns_during_a_list_download_that_needed_abort")
+		}
+		c14ValidateDir(rep, in.Dir, "after-shutdown-during-download")
+		if rep.Violated() {
+			return
+		}
+		in2, rerr := sysRestart(in, opts)
+		if rerr != nil {
+			rep.Violate("restart-after-shutdown-during-download-failed", "the server did not start after it was stopped during a list download: "+rerr.Error(), nil)
+
+			return
+		}
+		in = in2
+		// (The filtering routes are registered a moment after the status route.)
+		for w := 0; w < 200; w++ {
+			if st, _, e := in.API("GET", "/control/filtering/status", nil); e == nil && st == 200 {
+				break
+			}
+			time.Sleep(25 * time.Millisecond)
+		}
+		c14ValidateDir(rep, in.Dir, "after-restart-following-shutdown-during-download")
+		if rep.Violated() {
+			return
+		}
+	}
 }
